@@ -225,7 +225,13 @@ def gen_spec(r) -> dict:
             out.append([f"{prefix}pl", "plain"])      # a plain (non-mixin) dataclass: compiled on demand
         return out
 
-    mixin = "DataClassMessagePackMixin" if r.random() < 0.35 else None
+    mixin = r.choice(["DataClassMessagePackMixin", "DataClassMessagePackMixin", "DataClassORJSONMixin", "DataClassTOMLMixin"]) \
+        if r.random() < 0.45 else None
+    if mixin == "DataClassTOMLMixin":
+        # TOML has no null: omit_none stays on (TOMLDialect) -- no source may switch it off
+        for dsp in dialects.values():
+            if dsp.get("omit_none") is False:
+                dsp["omit_none"] = None
     classes = {
         "Inner": {"base": None, "mixin": mixin, "fields": [["n", "opt"], ["w", "int"]], "config": cfg()},
         "Plain": {"base": None, "plain_dataclass": True, "fields": [["q", "opt"]], "config": cfg()},
@@ -234,8 +240,12 @@ def gen_spec(r) -> dict:
         "G": {"base": "C", "fields": flds("g", 1, 2, 0.0), "config": cfg() if r.random() < 0.25 else None},
         "S": {"base": "P", "fields": flds("s", 1, 2, 0.4), "config": cfg() if r.random() < 0.25 else None},
     }
-    if any(kd == "inner" for f, kd in classes["C"]["fields"]):
-        pass
+    if mixin == "DataClassTOMLMixin":
+        for c in classes.values():
+            if c.get("config") is not None and c["config"].get("omit_none") is False:
+                c["config"]["omit_none"] = None
+    if r.random() < 0.3:
+        classes["P"]["fields"].append(["pbn", "byname"])      # self-reference by name: compilation of P is postponed
     return {"dialects": dialects, "classes": classes, "order": ["Inner", "Plain", "P", "C", "G", "S"], "flags": flags, "lazy": r.random() < 0.3,
             "base_dialect": base, "mixin": mixin, "cfg_int": r.random() < 0.4}
 
@@ -278,6 +288,10 @@ def covers(spec: dict, di) -> bool:
 def gen_vals(r, fam: F.Family, cname: str, depth: int = 0) -> dict:
     vals = {}
     for f, kind in fam.all_fields(cname):
+        if kind == "byname":
+            if depth < 2 and r.random() < (0.7 if depth == 0 else 0.35):
+                vals[f] = gen_vals(r, fam, "P", depth + 1)
+            continue
         if kind in ("selfopt", "selflist"):
             # recursive positions: nested nodes of the same class, two or three levels deep
             if depth < 2 and r.random() < (0.75 if depth == 0 else 0.4):
@@ -322,6 +336,12 @@ def gen_history(r, spec: dict, n_ops: int) -> list:
 
 def has_kind(fam: F.Family, cname: str, kind: str) -> bool:
     return any(k == kind for _f, k in fam.all_fields(cname))
+
+
+def is_deferred(fam: F.Family, cname: str) -> bool:
+    """Is the real compilation of the class's methods put off to the first call: lazy_compilation, or a forward
+    reference that cannot be resolved at class creation (P referring to itself by name)."""
+    return bool(fam.spec.get("lazy")) or (cname == "P" and has_kind(fam, "P", "byname"))
 
 
 def has_inner(fam: F.Family, cname: str):
@@ -471,7 +491,7 @@ class HistoryRun:
                 if op[1] == "Plain":
                     continue          # a plain dataclass: nothing is compiled until a class that uses it is
                 for d in self.dirs:
-                    if has_kind(fam, op[1], "plain") and not self.spec.get("lazy"):
+                    if has_kind(fam, op[1], "plain") and not is_deferred(fam, op[1]):
                         # eager class creation compiles the plain nested class on demand (dialect None)
                         self.model[d][0].append(["define", CID["Plain"]])
                         self.model[d][1].append(None)
@@ -484,8 +504,8 @@ class HistoryRun:
                 op[4] = vals
             tw = self.twin(di)
             mops, mouts = self.model[direction]
-            if self.spec.get("lazy") and has_kind(fam, c, "plain"):
-                # lazy_compilation: the first call in this (format, direction) compiles the class, and with it
+            if is_deferred(fam, c) and has_kind(fam, c, "plain"):
+                # lazy_compilation / postponed: the first call in this (format, direction) compiles the class, and with it
                 # the plain nested class (default method, own cache) -- repeated definitions are idempotent
                 mops.append(["define", CID["Plain"]])
                 mouts.append(None)
@@ -523,7 +543,7 @@ class HistoryRun:
                                          "expected": "a document, not an exception"}
                         break
                     tops, touts = self.model["mto" if mp else "to"]
-                    if self.spec.get("lazy") and has_kind(fam, c, "plain"):
+                    if is_deferred(fam, c) and has_kind(fam, c, "plain"):
                         tops.append(["define", CID["Plain"]])
                         touts.append(None)
                     tops.append(["call", CID[c], di])
@@ -574,8 +594,9 @@ def classify_history_failure(hr: HistoryRun, mm: dict) -> dict:
         return {"kind": mm["kind"], "direction": direction}
     sig = {"kind": "call-dialect-differs-from-twin", "direction": direction}
     obs = mm["observed"][0] if direction in ("to", "mto") else mm["observed"]
-    if (hr.spec.get("lazy") and hr.spec.get("mixin") and direction in ("mto", "mfrom") and di is not None
-            and any(k in ("selfopt", "selflist") for _f, k in hr.fam.all_fields(c))
+    self_ref = ((hr.spec.get("lazy") and any(k in ("selfopt", "selflist") for _f, k in hr.fam.all_fields(c)))
+                or (c == "P" and has_kind(hr.fam, "P", "byname")))
+    if (self_ref and hr.spec.get("mixin") and direction in ("mto", "mfrom") and di is not None
             and list(obs) == ["exc", "AttributeError" if direction == "mto" else "InvalidFieldValue"]
             and not any(o[0] == "call" and o[1] == c and o[2] == direction and o[3] is None for o in hr.ops[:mm["index"]])):
         return {"kind": "lazy-format-self-first-dialect-call", "direction": direction}
@@ -626,7 +647,7 @@ def history_part(ctx: vlib.Ctx, n_hist=None, tag=""):
                 upto = [list(o) for o in ops[:mm["index"] + 1]]
                 what_twin = ("the same family without keyword-flag options" if sig["kind"] == "keyword-flag-changes-default-output"
                              else f"the twin family whose default dialect is D{mm['op'][2]}")
-                ctx.fail(f"{mm['op'][0]}.{ {'to': 'to_dict', 'from': 'from_dict', 'mto': 'to_msgpack', 'mfrom': 'from_msgpack'}[mm['op'][1]] }(dialect=D{mm['op'][2]}) after "
+                ctx.fail(f"{mm['op'][0]}.{ {'to': 'to_dict', 'from': 'from_dict', 'mto': 'to_<format>', 'mfrom': 'from_<format>'}[mm['op'][1]] }(dialect=D{mm['op'][2]}) after "
                          f"{mm['index']} earlier operations differs from {what_twin}",
                          {"entry": "history", "spec": spec, "source": F.family_source(spec), "ops": upto,
                           "observed": mm["observed"], "expected": mm["expected"]}, sig)
